@@ -77,15 +77,23 @@ func LRHuntGen() *rapid.Generator[*Grammar] {
 		ref = func(depth int) *Expr {
 			r := Ref(Pick(t, names, "refname"))
 			switch U(t, 19, "refwrap") {
-			case 13:
-				// the operand of ? * & ! is itself wrapped: an action, a label, a +, another operator
-				return Opt(Action(nextID(), Seq(nullableThing(), r, term())))
-			case 14:
-				return Star(Label("g", Seq(nullableThing(), r, term())))
-			case 15:
-				return Opt(Plus(Seq(nullableThing(), r, term())))
-			case 16:
-				return Not(Opt(Action(nextID(), Seq(nullableThing(), r))))
+			case 13, 14, 15, 16:
+				// the operand of ? * & ! is itself wrapped: an action, a label, a +, another
+				// operator; what stands in front of the reference is nullable by its kind or is a
+				// reference to a rule that may be (a flag the analysis has to compute and store)
+				pre := nullableThing()
+				if U(t, 2, "prekind") == 0 {
+					pre = Ref(Pick(t, names, "preref"))
+				}
+				switch U(t, 4, "wrapkind") {
+				case 0:
+					return Opt(Action(nextID(), Seq(pre, r, term())))
+				case 1:
+					return Star(Label("g", Seq(pre, r, term())))
+				case 2:
+					return Opt(Plus(Seq(pre, r, term())))
+				}
+				return Not(Opt(Action(nextID(), Seq(pre, r))))
 			case 0:
 				return Opt(r)
 			case 1:
